@@ -10,7 +10,7 @@ import itertools
 from pvc.contract import Contract
 from pvc.explore import Raised
 
-OPS = ["recvA", "recvB", "post", "start", "pause", "resume"]
+OPS = ["recvA", "recvB", "queueA", "post", "start", "pause", "resume"]
 
 
 def _mk():
@@ -56,13 +56,16 @@ def h_buffers(env):
             prio, _, src, msg = queue.pop(0)
             comp.on_message(src, msg, 0)
 
-    def deliver_new(src):
+    def deliver_new(src, handle=True):
+        # a new message reaches the agent's queue (normal priority); with handle=False the agent thread has
+        # not yet picked it up when the next operation (e.g. start) runs
         k[0] += 1
         m = Message("t", "m%d" % k[0])
         received.append((src, m.content))
         seq[0] += 1
         queue.append((20, seq[0], src, m))
-        drain()
+        if handle:
+            drain()
 
     started = False
     for op in ops:
@@ -71,6 +74,8 @@ def h_buffers(env):
             r = env.call(deliver_new, "A")
         elif op == "recvB":
             r = env.call(deliver_new, "B")
+        elif op == "queueA":
+            r = env.call(deliver_new, "A", False)
         elif op == "post":
             k[0] += 1
             m = Message("t", "p%d" % k[0])
@@ -116,7 +121,8 @@ Contract(
     ["pydcop.infrastructure.computations:MessagePassingComputation.start", "pydcop.infrastructure.computations:MessagePassingComputation.pause",
      "pydcop.infrastructure.computations:MessagePassingComputation.on_message", "pydcop.infrastructure.computations:MessagePassingComputation.post_msg"],
     h_buffers,
-    lambda tier: [dict(n=4), dict(n=5, ops=["recvA", "recvB", "post", "start", "pause", "resume"])] + ([dict(n=6), dict(n=7, ops=["recvA", "recvB", "post", "pause", "resume", "start"])] if tier == "thorough" else []),
+    lambda tier: [dict(n=4), dict(n=5, ops=["recvA", "recvB", "post", "start", "pause", "resume"]), dict(n=5, ops=["recvA", "queueA", "start", "pause", "resume"])]
+    + ([dict(n=6), dict(n=7, ops=["recvA", "recvB", "post", "pause", "resume", "start"]), dict(n=7, ops=["recvA", "queueA", "start", "pause", "resume"])] if tier == "thorough" else []),
     mode="E", must_cover=["post"],
     trusted=["agent queue emulated as (priority, FIFO) - the guarantee of C18"],
     budget=dict(quick=dict(max_paths=60000, timeout_s=200), thorough=dict(max_paths=2000000, timeout_s=3000)),
